@@ -679,6 +679,68 @@ func (d *cnDriver) step() error {
 		}
 	}
 	if d.rng.Intn(5) == 0 {
+		// entity descriptors: entities rewrite their node lists (dropping a node that is still registered, listing somebody else's
+		// node), user accounts register as entities and deregister again, descriptors carried by a transaction of somebody else or
+		// signed by somebody else
+		allowed := func(e string) []string {
+			if ents, ok := d.lastReg["entities"].(map[string]any); ok {
+				if x, ok := ents[e].(map[string]any); ok {
+					if l, ok := x["allowed_nodes"].([]string); ok {
+						return append([]string{}, l...)
+					}
+				}
+			}
+			return nil
+		}
+		ei := d.rng.Intn(n.cfg.Validators)
+		ename := fmt.Sprintf("E%d", ei)
+		signer, validity := ename, "ok"
+		list := allowed(ename)
+		switch x := d.rng.Intn(10); {
+		case x < 3 && ei != 1 && len(list) > 0: // drop a node from the list (it may still be registered)
+			k := d.rng.Intn(len(list))
+			list = append(list[:k], list[k+1:]...)
+		case x < 5: // list another node
+			list = append(list, fmt.Sprintf("N%d", d.rng.Intn(len(n.vals))))
+		case x < 7: // a user account runs an entity
+			u := n.users[d.rng.Intn(len(n.users))].name
+			ename, signer, list = u, u, nil
+			if d.rng.Intn(2) == 0 {
+				list = []string{fmt.Sprintf("N%d", d.rng.Intn(len(n.vals)))}
+			}
+		case x == 7:
+			signer, validity = n.users[d.rng.Intn(len(n.users))].name, "wrongsigner"
+		case x == 8:
+			signer, validity = n.users[d.rng.Intn(len(n.users))].name, "badentsig"
+		}
+		if ei == 1 && ename == "E1" && validity == "ok" {
+			list = allowed("E1") // documented precondition: entity 1 keeps its validator
+			if len(list) == 0 {
+				list = []string{"N1"}
+			}
+		}
+		sp := &cnTxSpec{Kind: "regentity", Signer: signer, Entity: ename, Nodes: strings.Join(list, ","), Nonce: uint64(d.acctField(signer, "n")) + nonceBump[signer],
+			Fee: int64(d.rng.Intn(2)), Gas: 6000, Validity: validity}
+		if raw, err := n.buildTx(sp, d.rng); err == nil {
+			nonceBump[signer]++
+			metas = append(metas, cnTxMeta{sp, raw})
+		}
+		if d.rng.Intn(3) == 0 {
+			// ... and a deregistration: by an entity whose list no longer names its registered node, or by a user-run entity
+			who := ename
+			if d.rng.Intn(2) == 0 {
+				who = n.users[d.rng.Intn(len(n.users))].name
+			}
+			if who != "E1" {
+				sp2 := &cnTxSpec{Kind: "deregentity", Signer: who, Nonce: uint64(d.acctField(who, "n")) + nonceBump[who], Gas: 5000, Validity: "hasnodes"}
+				if raw, err := n.buildTx(sp2, d.rng); err == nil {
+					nonceBump[who]++
+					metas = append(metas, cnTxMeta{sp2, raw})
+				}
+			}
+		}
+	}
+	if d.rng.Intn(5) == 0 {
 		// entities try to unfreeze their nodes (fails unless frozen and the freeze period is over)
 		i := d.rng.Intn(len(n.vals))
 		ename := fmt.Sprintf("E%d", min(i, n.cfg.Validators-1)*btoi(i < n.cfg.Validators))
@@ -695,6 +757,7 @@ func (d *cnDriver) step() error {
 	}
 	if !d.noRounds {
 		metas = append(metas, d.genCommits(nonceBump)...)
+		metas = append(metas, d.genEvidence(nonceBump)...)
 	}
 	if d.vaults {
 		metas = append(metas, d.genVault(nonceBump)...)
@@ -807,6 +870,18 @@ func (d *cnDriver) step() error {
 			pos = 0
 		}
 		metas = append(metas[:pos], append([]cnTxMeta{{&cnTxSpec{Kind: "junk", Validity: "junk"}, junk}}, metas[pos:]...)...)
+	}
+	// structurally mutated bodies under authentic signatures: now and then a well-formed transaction of this block is replaced by
+	// itself with one map entry dropped or one value replaced (null, empty, another type) anywhere in its body
+	for i := range metas {
+		// (not the kinds whose successful transactions a trace specification follows by their recorded request: executor
+		// commitments, governance and vault transactions)
+		if k := metas[i].spec.Kind; metas[i].spec.Validity == "ok" && k != "junk" && k != "rhcommit" && k != "propose" && k != "vote" &&
+			k != "vcreate" && k != "vauth" && k != "vcancel" && !(k == "withdraw" && strings.HasPrefix(metas[i].spec.To, "V")) && d.rng.Intn(12) == 0 {
+			if raw, sp, ok := n.mutateBody(metas[i].raw, d.rng); ok {
+				metas[i] = cnTxMeta{sp, raw}
+			}
+		}
 	}
 	var mempool [][]byte
 	for _, m := range metas {
